@@ -119,7 +119,8 @@ def d3_sample_filter(ctx):
             # integer comparisons are normalised to `<`: rtt > 0 is !(rtt < 1), rtt <= 10000 is rtt < 10001
             lt1 = pa.find(lambda a: a[0] == "bin" and a[1] == "Lt" and strip_old(a[2]) == rtt and a[3] == ("const", 1, "u64"))
             lt2 = pa.find(lambda a: a[0] == "bin" and a[1] == "Lt" and strip_old(a[2]) == rtt and a[3] == ("const", 10001, "u64"))
-            P = b.NOT(lt1[0][1]) if len(lt1) == 1 else None
+            eq0 = pa.find(lambda a: a[0] == "bin" and a[1] == "Eq" and ("const", 0, "u64") in (a[2], a[3]) and rtt in (strip_old(a[2]), strip_old(a[3])))
+            P = b.NOT(lt1[0][1]) if len(lt1) == 1 else b.NOT(eq0[0][1]) if len(eq0) == 1 else None
             L = lt2[0][1] if len(lt2) == 1 else None
             okp = P is not None and L is not None and pa.equivalent(pc, b.AND(b.AND(W[0][1], some), b.AND(P, L)))
             ctx.chk.ob("D3", "a keepalive sample is taken exactly when a probe is outstanding, the echo carries a timestamp, and 0 < rtt <= 10000 ms", okp,
